@@ -178,6 +178,15 @@ static void run_cmd(char **a, int n) {
         if (!strcmp(a[2], "head")) {
             if (q->len + l <= QCAP) { memmove(q->b + l, q->b, q->len); memcpy(q->b, d, l); q->len += l;
                 q_meta_push_head(q, d[0], d[0], 0); }
+        } else if (a[2][0] >= '0' && a[2][0] <= '9') {
+            /* behind the first N records of the queue (e.g. the compatibility CCS between ClientHello and 0-RTT data) */
+            int nrec = atoi(a[2]), k = 0; size_t off = 0, h = (size_t) SESS_RHL;
+            while (k < nrec && off + h <= q->len) { size_t rl = h + ((size_t) q->b[off+h-2] << 8) + q->b[off+h-1]; if (off + rl > q->len) break; off += rl; k++; }
+            if (q->len + l <= QCAP) {
+                memmove(q->b + off + l, q->b + off, q->len - off); memcpy(q->b + off, d, l); q->len += l;
+                for (unsigned i = q->mt; i > q->mh + (unsigned) k; i--) q->m[i % MQ] = q->m[(i - 1) % MQ];
+                q->mt++; { rmeta_t *m = &q->m[(q->mh + (unsigned) k) % MQ]; m->outer = d[0]; m->inner = d[0]; m->sealed = 0; m->early = 0; m->dgend = 1; }
+            }
         } else { q_push(q, d, l); q_meta_push(q, d[0], d[0], 0); }
         printf("qinj:%zu", l); free(d);
     }
@@ -246,6 +255,7 @@ static void run_cmd(char **a, int n) {
         printf("post="); print_snap(p);
     }
 #endif
+    else if (!strcmp(a[0], "rbmode") && n >= 2) { g_rbofsize = atoi(a[1]); printf("rbmode:%d", g_rbofsize); }
     else if (!strcmp(a[0], "seths") && n >= 3) { peer_t *p = side(a[1]); if (p->ssl) p->ssl->hsState = (uint8_t) atoi(a[2]); printf("seths:%d", atoi(a[2])); }
     else if (!strcmp(a[0], "tick") && n >= 2) { g_vtime += atol(a[1]); printf("tick:%ld", g_vtime); }
     else if (!strcmp(a[0], "sendchunk") && n >= 2) { g_sendchunk = atoi(a[1]); printf("sendchunk:%d", g_sendchunk); }
